@@ -1010,6 +1010,260 @@ theorem rawLoop_facts : ∀ (n : Nat) (s : St) (acc : List Bytes) (r : Except Er
           obtain ⟨l4, n4⟩ := ih _ _ _ _ h
           exact ⟨by simpa using (ef.law.toQ.trans rl).trans l4, n4⟩
 
+theorem skipIsC_facts : ∀ (fuel : Nat) (s : St) (matched : Bool) (rest : Bytes) (r : Except Err Bool) (s' : St),
+    skipIsC fuel s matched rest = (r, s') →
+    Law s s' 0 0 ∧ s'.m.calls = s.m.calls ∧ r ≠ .error .panic ∧
+    s'.m.need ≤ max s.m.need 1 ∧ s'.m.held = s.m.held ∧
+    (0 < s.bl → ∀ v, r = .ok v → s'.bl + s'.sb + 1 ≤ s.bl + s.sb) ∧
+    (r = .ok true → s'.bl + s'.sb + rest.length ≤ s.bl + s.sb) := by
+  intro fuel
+  induction fuel with
+  | zero =>
+    intro s matched rest r s' h
+    simp only [skipIsC, Prod.mk.injEq] at h
+    obtain ⟨rfl, rfl⟩ := h
+    exact ⟨Law.refl s, rfl, np_of_ne (by decide), Nat.le_max_left _ _, rfl, fun _ _ hv => (nomatch hv), fun hv => (nomatch hv)⟩
+  | succ fuel ih =>
+    intro s matched rest r s' h
+    simp only [skipIsC] at h
+    generalize he : ensure 1 s = er at h
+    obtain ⟨r1, s1⟩ := er
+    have ef := ensure_facts 1 s r1 s1 he
+    have hneed : s1.m.need ≤ max s.m.need 1 := by rw [ef.need]; exact Nat.le_refl _
+    rcases ef.errs with hr | hr | hr
+    · subst hr
+      simp only at h
+      cases hb : s1.d.buf with
+      | nil =>
+        exfalso
+        have := ef.okLen rfl
+        simp [St.bl, hb] at this
+      | cons c tl =>
+        rw [hb] at h
+        simp only at h
+        obtain ⟨l, hcons⟩ := law_byte (s2 := s1.setBuf tl) ef hb 0 (Nat.zero_le _) rfl rfl rfl rfl rfl rfl rfl
+        -- what a recursive call on the remaining buffer contributes
+        have step : ∀ (mt : Bool) (rs : Bytes), rs.length + 1 ≥ rest.length ∨ mt = false →
+            skipIsC fuel (s1.setBuf tl) mt rs = (r, s') →
+            Law s s' 0 0 ∧ s'.m.calls = s.m.calls ∧ r ≠ .error .panic ∧
+            s'.m.need ≤ max s.m.need 1 ∧ s'.m.held = s.m.held ∧
+            (0 < s.bl → ∀ v, r = .ok v → s'.bl + s'.sb + 1 ≤ s.bl + s.sb) ∧
+            (r = .ok true → mt = true → s'.bl + s'.sb + rs.length ≤ (s1.setBuf tl).bl + (s1.setBuf tl).sb) := by
+          intro mt rs _ hrec
+          obtain ⟨l2, c2, n2, nd2, hd2, _, tr2⟩ := ih _ _ _ _ _ hrec
+          simp only [setBuf_m] at nd2 hd2
+          refine ⟨by simpa using l.trans l2, by rw [c2]; simpa using ef.calls, n2, by omega, by rw [hd2]; exact ef.held, ?_, fun hv _ => tr2 hv⟩
+          intro _ _ _
+          have := l2.bys
+          omega
+        by_cases hc : c = 0
+        · rw [if_pos hc] at h
+          simp only [Prod.mk.injEq] at h
+          obtain ⟨rfl, rfl⟩ := h
+          refine ⟨l, by simpa using ef.calls, np_ok _, by simpa using hneed, by simpa using ef.held, fun _ _ _ => by omega, ?_⟩
+          intro hv
+          simp only [Except.ok.injEq, Bool.and_eq_true, List.isEmpty_iff] at hv
+          rw [hv.2]
+          simp only [List.length_nil]
+          omega
+        · rw [if_neg hc] at h
+          -- a `true` result of a call started with `matched = false` is impossible
+          have false_stays : ∀ (fu : Nat) (t : St) (rs : Bytes) (s'' : St), skipIsC fu t false rs ≠ (.ok true, s'') := by
+            intro fu
+            induction fu with
+            | zero => intro t rs s'' hh; simp [skipIsC] at hh
+            | succ fu ihf =>
+              intro t rs s'' hh
+              simp only [skipIsC] at hh
+              generalize he2 : ensure 1 t = er2 at hh
+              obtain ⟨r2, t1⟩ := er2
+              have ef2 := ensure_facts 1 t r2 t1 he2
+              rcases ef2.errs with hr | hr | hr
+              · subst hr
+                simp only at hh
+                cases hb2 : t1.d.buf with
+                | nil => rw [hb2] at hh; simp at hh
+                | cons c2 tl2 =>
+                  rw [hb2] at hh
+                  simp only at hh
+                  by_cases hc2 : c2 = 0
+                  · rw [if_pos hc2] at hh; simp at hh
+                  · rw [if_neg hc2] at hh
+                    exact ihf _ _ _ hh
+              · subst hr; simp at hh
+              · subst hr; simp at hh
+          cases matched with
+          | false =>
+            simp only at h
+            obtain ⟨a1, a2, a3, a4, a5, a6, _⟩ := step false rest (Or.inr rfl) h
+            refine ⟨a1, a2, a3, a4, a5, a6, ?_⟩
+            intro hv
+            subst hv
+            exact absurd h (false_stays _ _ _ _)
+          | true =>
+            cases rest with
+            | nil =>
+              simp only at h
+              obtain ⟨a1, a2, a3, a4, a5, a6, _⟩ := step false [] (Or.inr rfl) h
+              refine ⟨a1, a2, a3, a4, a5, a6, ?_⟩
+              intro hv
+              subst hv
+              exact absurd h (false_stays _ _ _ _)
+            | cons b rr =>
+              simp only at h
+              by_cases hcb : c = b
+              · rw [if_pos hcb] at h
+                obtain ⟨a1, a2, a3, a4, a5, a6, a7⟩ := step true rr (Or.inl (by simp)) h
+                refine ⟨a1, a2, a3, a4, a5, a6, ?_⟩
+                intro hv
+                have := a7 hv rfl
+                simp only [List.length_cons]
+                omega
+              · rw [if_neg hcb] at h
+                obtain ⟨a1, a2, a3, a4, a5, a6, _⟩ := step false (b :: rr) (Or.inr rfl) h
+                refine ⟨a1, a2, a3, a4, a5, a6, ?_⟩
+                intro hv
+                subst hv
+                exact absurd h (false_stays _ _ _ _)
+    · subst hr
+      simp only [Prod.mk.injEq] at h
+      obtain ⟨rfl, rfl⟩ := h
+      exact ⟨ef.law, ef.calls, np_of_ne (by decide), hneed, ef.held, fun _ _ hv => (nomatch hv), fun hv => (nomatch hv)⟩
+    · subst hr
+      simp only [Prod.mk.injEq] at h
+      obtain ⟨rfl, rfl⟩ := h
+      refine ⟨ef.law, ef.calls, np_ok _, hneed, ef.held, ?_, ?_⟩
+      · intro hpos _ _
+        exfalso
+        have := ensure_of_le 1 s hpos
+        rw [he] at this
+        cases this
+      · intro hv
+        simp only [Except.ok.injEq, Bool.and_eq_true, List.isEmpty_iff] at hv
+        rw [hv.2]
+        have := ef.law.bys
+        simp only [List.length_nil]
+        omega
+
+/-- `skipStringIs want`: one string-level operation; it allocates at most `|want| + 1` bytes (the
+    `GetBytes` of a string exactly as long as `want`), paid for by the bytes it consumes; a
+    positive answer means at least `|want|` bytes were consumed -/
+theorem skipStringIs_facts (want : Bytes) (s : St) (r : Except Err Bool) (s' : St) (h : skipStringIs want s = (r, s')) :
+    Law s s' 1 0 ∧ r ≠ .error .panic ∧ s'.m.calls ≤ s.m.calls + 1 ∧ CapLaw (max 8 (want.length + 1)) s s' ∧
+    (0 < s.bl → ∀ v, r = .ok v → s'.bl + s'.sb + 1 ≤ s.bl + s.sb) ∧
+    (r = .ok true → s'.bl + s'.sb + want.length ≤ s.bl + s.sb) := by
+  unfold skipStringIs at h
+  simp only at h
+  by_cases henc : s.call.enc = true
+  · rw [if_pos henc] at h
+    generalize hg : getInt32 s.call = gr at h
+    obtain ⟨r1, s1⟩ := gr
+    obtain ⟨f1, g1⟩ := getInt32_facts _ _ _ hg
+    have cap1 : CapLaw (max 8 (want.length + 1)) s s1 := (f1.cap.mono (Nat.le_max_left _ _)).of_call
+    cases r1 with
+    | error e =>
+      simp only [Prod.mk.injEq] at h
+      obtain ⟨rfl, rfl⟩ := h
+      refine ⟨f1.law.of_call, ?_, by rw [f1.calls]; simp, cap1, fun _ _ hv => (nomatch hv), fun hv => (nomatch hv)⟩
+      intro hh; cases hh; exact f1.np rfl
+    | ok len =>
+      simp only at h
+      have g8 := g1 len rfl
+      simp only [St.bl, St.sb, call_d] at g8
+      by_cases hl : len = (want.length : Int) ∨ len = (want.length : Int) + 1
+      · rw [if_pos hl] at h
+        generalize hb : getBytes len s1 = br at h
+        obtain ⟨r2, s2⟩ := br
+        have f2 := getBytes_facts _ _ _ _ hb
+        have hln : len.toNat ≤ max 8 (want.length + 1) := by omega
+        have cap2 : CapLaw (max 8 (want.length + 1)) s s2 := cap1.trans (f2.cap.mono hln)
+        have l12 : Law s s2 1 0 := by simpa using (f1.law.trans f2.law).of_call
+        have hcalls : s2.m.calls ≤ s.m.calls + 1 := by rw [f2.calls, f1.calls]; simp
+        have hby := f2.law.bys
+        cases r2 with
+        | error e =>
+          simp only [Prod.mk.injEq] at h
+          obtain ⟨rfl, rfl⟩ := h
+          exact ⟨l12, np_of_ne (fun hh => f2.np (by rw [hh])), hcalls, cap2, fun _ _ hv => (nomatch hv), fun hv => (nomatch hv)⟩
+        | ok data =>
+          simp only [Prod.mk.injEq] at h
+          obtain ⟨rfl, rfl⟩ := h
+          refine ⟨l12, np_ok _, hcalls, cap2, ?_, ?_⟩
+          · intro _ _ _
+            simp only [St.bl, St.sb] at hby ⊢
+            omega
+          · intro _
+            -- eight bytes of length prefix already cover `|want|`... only when |want| ≤ 8; in general
+            -- the data bytes do: `getBytes` consumed `len ≥ |want|` bytes
+            unfold getBytes at hb
+            by_cases hle : len ≤ 0
+            · -- |want| = 0
+              have hw : want.length = 0 := by omega
+              rw [hw]
+              simp only [St.bl, St.sb] at hby ⊢
+              omega
+            · rw [if_neg hle] at hb
+              generalize he : ensure len.toNat s1 = er at hb
+              obtain ⟨r3, s3⟩ := er
+              have ef := ensure_facts _ _ _ _ he
+              cases r3 with
+              | error e => simp at hb
+              | ok u =>
+                simp only [Prod.mk.injEq] at hb
+                obtain ⟨_, rfl⟩ := hb
+                have hk : len.toNat ≤ s3.bl := ef.okLen rfl
+                have hd := drop_bl s3 len.toNat hk
+                have hc := ef.conserve
+                simp only [St.bl, St.sb, hold_d, addAlloc_d, setBuf_d_buf, setBuf_d_src] at hd hc ⊢
+                omega
+      · rw [if_neg hl] at h
+        generalize hd : discard (s1.nsrc + 2) len.toNat s1 = dr at h
+        obtain ⟨r2, s2⟩ := dr
+        obtain ⟨l2, c2, n2, nd2, hd2⟩ := discard_facts _ _ _ _ _ hd
+        have cap2 : CapLaw (max 8 (want.length + 1)) s s2 := by
+          refine ⟨?_, ?_⟩
+          · have := cap1.need; omega
+          · have := cap1.held; omega
+        have l12 : Law s s2 1 0 := by simpa using (f1.law.trans l2).of_call
+        have hcalls : s2.m.calls ≤ s.m.calls + 1 := by rw [c2, f1.calls]; simp
+        have hby := l2.bys
+        cases r2 with
+        | error e =>
+          simp only [Prod.mk.injEq] at h
+          obtain ⟨rfl, rfl⟩ := h
+          exact ⟨l12, np_of_ne (fun hh => n2 (by rw [hh])), hcalls, cap2, fun _ _ hv => (nomatch hv), fun hv => (nomatch hv)⟩
+        | ok u =>
+          simp only [Prod.mk.injEq] at h
+          obtain ⟨rfl, rfl⟩ := h
+          refine ⟨l12, np_ok _, hcalls, cap2, ?_, fun hv => by simp at hv⟩
+          intro _ _ _
+          simp only [St.bl, St.sb] at hby ⊢
+          omega
+  · rw [if_neg henc] at h
+    obtain ⟨l, c, n, nd, hd, pr, tr⟩ := skipIsC_facts _ _ _ _ _ _ h
+    refine ⟨by simpa using l.of_call, n, by rw [c]; simp, ⟨?_, ?_⟩, ?_, ?_⟩
+    · simp only [call_need] at nd; omega
+    · simp only [call_held] at hd; omega
+    · intro hpos v hv
+      have := pr (by simpa [St.bl] using hpos) v hv
+      simpa [St.bl, St.sb] using this
+    · intro hv
+      have := tr hv
+      simpa [St.bl, St.sb] using this
+
+theorem skipSecret_facts (s : St) (r : Except Err Unit) (s' : St) (h : skipSecret s = (r, s')) :
+    Law s s' 1 0 ∧ r ≠ .error .panic ∧ s'.m.calls ≤ s.m.calls + 1 ∧ CapLaw 8 s s' := by
+  unfold skipSecret at h
+  simp only at h
+  generalize hg : skipString { s with enc := s.enc || s.key } = gr at h
+  obtain ⟨r2, s2⟩ := gr
+  simp only [Prod.mk.injEq] at h
+  obtain ⟨rfl, rfl⟩ := h
+  obtain ⟨l, n, c, cp, _⟩ := skipString_facts _ _ _ hg
+  have hs1 : SameBut s { s with enc := s.enc || s.key } := ⟨rfl, rfl, rfl⟩
+  have hs2 : SameBut { s2 with enc := s.enc } s2 := ⟨rfl, rfl, rfl⟩
+  exact ⟨l.same hs1 hs2 rfl, n, c, ⟨cp.need, cp.held⟩⟩
+
 theorem skipLoop_facts : ∀ (n : Nat) (s : St) (r : Except Err Unit) (s' : St),
     skipLoop n s = (r, s') → Law s s' 1 0 ∧ r ≠ .error .panic ∧ CapLaw 8 s s' := by
   intro n
@@ -1034,26 +1288,51 @@ theorem skipLoop_facts : ∀ (n : Nat) (s : St) (r : Except Err Unit) (s' : St),
     | ok u =>
       simp only at h
       have hbl : 0 < s1.bl := ef.okLen rfl
-      generalize hg : skipString s1 = gr at h
+      generalize hg : skipStringIs secretMarker s1 = gr at h
       obtain ⟨r2, s2⟩ := gr
-      obtain ⟨l2, n2, c2, cp2, pr2⟩ := skipString_facts _ _ _ hg
+      obtain ⟨l2, n2, c2, cp2', pr2, tr2⟩ := skipStringIs_facts _ _ _ _ hg
+      have cp2 : CapLaw 8 s1 s2 := by
+        have h3 := secretMarker_length
+        exact ⟨by have := cp2'.need; omega, by have := cp2'.held; omega⟩
+      have hc1 := ef.calls
+      have hcons := ef.conserve
       cases r2 with
       | error e =>
         simp only [Prod.mk.injEq] at h
         obtain ⟨rfl, rfl⟩ := h
-        exact ⟨by simpa using ef.law.trans l2, n2, cap1.trans cp2⟩
-      | ok u2 =>
+        exact ⟨by simpa using ef.law.trans l2, np_of_ne (fun hh => n2 (by rw [hh])), cap1.trans cp2⟩
+      | ok isMarker =>
         simp only at h
-        obtain ⟨l3, n3, cp3⟩ := ih _ _ _ h
-        have hp := pr2 hbl rfl
-        -- the round cost one call and consumed at least one byte
-        have l12 : Law s s2 0 0 := by
-          obtain ⟨e, k, f, m, b, c, a⟩ := ef.law.trans l2
-          have hc1 := ef.calls
-          have hcons := ef.conserve
-          exact ⟨e, k, f, m, b, by omega, a⟩
-        exact ⟨by simpa using l12.trans l3, n3, (cap1.trans cp2).trans cp3⟩
-
+        have hp := pr2 hbl isMarker rfl
+        cases isMarker with
+        | true =>
+          simp only [if_true] at h
+          have h3 := tr2 rfl
+          rw [secretMarker_length] at h3
+          generalize hs : skipSecret s2 = sr at h
+          obtain ⟨r3, s3⟩ := sr
+          obtain ⟨l3, n3, c3, cp3⟩ := skipSecret_facts _ _ _ hs
+          -- two string-level operations, at least three bytes consumed
+          have l13 : Law s s3 0 0 := by
+            obtain ⟨e, k, f, m, b, c, a⟩ := (ef.law.trans l2).trans l3
+            have hb3 := l3.bys
+            exact ⟨e, k, f, m, b, by omega, a⟩
+          cases r3 with
+          | error e =>
+            simp only [Prod.mk.injEq] at h
+            obtain ⟨rfl, rfl⟩ := h
+            exact ⟨l13.mono (Nat.zero_le _) (Nat.le_refl _), n3, (cap1.trans cp2).trans cp3⟩
+          | ok u3 =>
+            simp only at h
+            obtain ⟨l4, n4, cp4⟩ := ih _ _ _ h
+            exact ⟨by simpa using l13.trans l4, n4, ((cap1.trans cp2).trans cp3).trans cp4⟩
+        | false =>
+          simp only [Bool.false_eq_true, if_false] at h
+          obtain ⟨l3, n3, cp3⟩ := ih _ _ _ h
+          have l12 : Law s s2 0 0 := by
+            obtain ⟨e, k, f, m, b, c, a⟩ := ef.law.trans l2
+            exact ⟨e, k, f, m, b, by omega, a⟩
+          exact ⟨by simpa using l12.trans l3, n3, (cap1.trans cp2).trans cp3⟩
 
 /-! ## the budgeted strings of the (capped) ClassAd reader -/
 
